@@ -780,4 +780,60 @@ theorem pidTok_showInt (i : Int) : pidTok (showInt i) = some (i, []) := by
   · rename_i h
     rw [pidTok_digits]; congr 2; omega
 
+/-! ## the value of a float token, spelled out -/
+
+/-- an optional sign and the sign bit it denotes -/
+def SignOf (sg : Str) (neg : Bool) : Prop :=
+  (sg = [] ∧ neg = false) ∨ (sg = ['+'] ∧ neg = false) ∨ (sg = ['-'] ∧ neg = true)
+
+theorem optSign_signed {sg : Str} {neg : Bool} (h : SignOf sg neg) (ds rest : Str) (hne : ds ≠ [])
+    (hd : ∀ c ∈ ds, isDig c = true) : optSign (sg ++ (ds ++ rest)) = (neg, ds ++ rest) := by
+  rcases h with ⟨rfl, rfl⟩ | ⟨rfl, rfl⟩ | ⟨rfl, rfl⟩
+  · cases ds with
+    | nil => exact absurd rfl hne
+    | cons c cs => exact optSign_of_dig c _ (hd c (by simp))
+  · rfl
+  · rfl
+
+theorem isEmpty_false_of_ne {ds : Str} (hne : ds ≠ []) : ds.isEmpty = false := by
+  cases ds with
+  | nil => exact absurd rfl hne
+  | cons c cs => rfl
+
+theorem floatPrefix_shape {sg : Str} {neg : Bool} (h : SignOf sg neg) (ip tail : Str) (hne : ip ≠ [])
+    (hd : ∀ c ∈ ip, isDig c = true) (ht : NoDig tail) :
+    floatPrefix (sg ++ (ip ++ tail)) =
+      some (⟨neg, natOf (ip ++ (fracPart tail).1), (expPart (fracPart tail).2).1 - (fracPart tail).1.length⟩,
+        (expPart (fracPart tail).2).2) := by
+  rw [floatPrefix_eq, optSign_signed h ip tail hne hd]
+  simp only []
+  rw [takeDigs_digs_append ip tail hd ht]
+  simp [isEmpty_false_of_ne hne]
+
+theorem expPart_exp {esg : Str} {eneg : Bool} (h : SignOf esg eneg) (c : Char) (hc : c = 'e' ∨ c = 'E')
+    (ex : Str) (hne : ex ≠ []) (hd : ∀ c ∈ ex, isDig c = true) :
+    expPart (c :: (esg ++ ex)) = ((if eneg then -(natOf ex : Int) else (natOf ex : Int)), []) := by
+  have := optSign_signed h ex [] hne hd
+  simp only [List.append_nil] at this
+  have hc' : (decide (c = 'e') || decide (c = 'E')) = true := by simpa using hc
+  simp only [expPart, hc', if_true, this, takeDigs_allDig ex hd, isEmpty_false_of_ne hne]
+  simp
+
+theorem noDig_cons {c : Char} (t : Str) (h : isDig c = false) : NoDig (c :: t) := by
+  intro d hd; simp at hd; subst hd; exact h
+
+theorem classify_invalid_of (nx : Nat) (l : Str) (hp : parseData nx l = none) (hs : NonWsStart (dropWs l)) :
+    classify nx l = .invalid := by
+  obtain ⟨c, cs, hc, -, hh⟩ := hs
+  unfold classify
+  rw [hp]
+  simp only []
+  rw [hc]
+  split
+  · rename_i heq; simp at heq; exact absurd heq.1 hh
+  · rename_i heq; simp at heq
+  · rfl
+
+theorem floatPrefix_nil : floatPrefix [] = none := rfl
+
 end SwcText
